@@ -125,13 +125,13 @@ def mutate(r, g, insts, per_class=2):
                             cands.append(("dangling_reference", "%s.%s (aggregate of KSelect, appended) := (..., #999999)" % (owner, an),
                                           with_toks(toks[:b - 1] + [",", "#999999"] + toks[b - 1:]), iid, False))
                     if kind == "KEntity":
-                        wrong = [i["id"] for i in insts if not i["complex"] and i["parts"][0][0] not in at[1]]
+                        wrong = [i["id"] for i in insts if not i["complex"] and not any(popgen.VERIF_ALL.isa(i["parts"][0][0], e_) for e_ in at[1])]
                         if wrong:
                             w = r.choice(wrong)
                             cands.append(("ill_typed_reference", "%s.%s := #%d (wrong entity type)" % (owner, an, w),
                                           with_toks(toks[:a] + ["#%d" % w] + toks[b:]), iid, False))
                     if kind == "KAggregate" and at[1][0] == "ref" if isinstance(at[1], tuple) else False:
-                        wrong = [i["id"] for i in insts if not i["complex"] and i["parts"][0][0] not in at[1][1]]
+                        wrong = [i["id"] for i in insts if not i["complex"] and not any(popgen.VERIF_ALL.isa(i["parts"][0][0], e_) for e_ in at[1][1])]
                         if wrong:
                             w = r.choice(wrong)
                             cands.append(("ill_typed_reference", "%s.%s := (#%d) (wrong entity type in aggregate)" % (owner, an, w),
